@@ -156,6 +156,10 @@ def plan(tier):
             combos.extend(itertools.combinations(range(len(slots)), r))
         for i in range(0, len(combos), 60):
             units.append(('file', si, combos[i:i + 60]))
+    from mc import wrgraph
+    ncfg = len(wrgraph.scale_configs(tier))
+    for lo in range(0, ncfg, 4):
+        units.append(('scale', lo, min(lo + 4, ncfg)))
     return {
         'units': units,
         'rule': '(a) every string of <= %d tokens over a %d-token alphabet '
@@ -212,7 +216,39 @@ def _unit_body(unit, tier, acc, timeouts):
         if timeouts[0] >= MAX_TIMEOUTS_PER_UNIT:
             raise UnitAborted()
 
-    if unit[0] == 'str-short':
+    if unit[0] == 'scale':
+        # writer-shaped UTF-8 files whose sections take boundary sizes
+        from mc import wrgraph
+        cfgs = wrgraph.scale_configs(tier)[unit[1]:unit[2]]
+        global WATCHDOG_S
+        for cfg in cfgs:
+            calls = wrgraph.scale_calls(cfg, None, None)
+            data, recs = spec.serialize(calls, 'utf-8')
+            text = data.decode('utf-8')
+            headers = ['#%s:' % r['section'] for r in recs]
+            signal.setitimer(signal.ITIMER_REAL, 60)
+            try:
+                viols = check_file(text, headers)
+            except Timeout:
+                viols = [('lexer-timeout:scale', 'file of %d characters'
+                          % len(text))]
+                timeouts[0] += 1
+            finally:
+                signal.setitimer(signal.ITIMER_REAL, 0)
+            acc.evals += 1
+            acc.states += 1
+            acc.transitions += 1
+            acc.validated += 1
+            acc.nontrivial += 1
+            for key, msg in viols:
+                acc.violation(key if key.endswith(':scale')
+                              else key + ':scale', msg[:800],
+                              {'kind': 'scale', 'cfg': cfg})
+            acc.outcome('ok' if not viols else 'violation')
+            if timeouts[0] >= MAX_TIMEOUTS_PER_UNIT:
+                raise UnitAborted()
+        acc.sample({'scale_configuration': cfgs[0]}, 1)
+    elif unit[0] == 'str-short':
         alpha = FINE if unit[1] == 'fine' else COARSE
         for n in (0, 1):
             for t in itertools.product(alpha, repeat=n):
@@ -265,7 +301,13 @@ def replay(payload):
     signal.signal(signal.SIGALRM, _alarm)
     signal.setitimer(signal.ITIMER_REAL, WATCHDOG_S)
     try:
-        if payload.get('kind') == 'str':
+        if payload.get('kind') == 'scale':
+            from mc import wrgraph
+            data, recs = spec.serialize(
+                wrgraph.scale_calls(payload['cfg'], None, None), 'utf-8')
+            viols = [(k + ':scale', m) for k, m in check_file(
+                data.decode('utf-8'), ['#%s:' % r['section'] for r in recs])]
+        elif payload.get('kind') == 'str':
             viols, _ = check_lossless(payload['text'])
         elif payload.get('kind') == 'file':
             calls = from_jsonable(payload['calls'])
